@@ -104,7 +104,8 @@ def _worker(job, chk):
                     chk.sample({"stack": stack, "default_noreply": dn, "delivery": delivery,
                                 "sequence": [o.label for o in seq], "fault_plan": ch.plan(),
                                 "results": [(r["kind"], connoracle.short(r["value"])) for r in rec]})
-            bad = connoracle.judge(ch, net, obj, rec, stack, dn, seq)
+            bad = connoracle.judge(ch, net, obj, rec, stack, dn, seq,
+                                   base=connoracle.baseline_kinds(stack, dn, seq, cfg, delivery))
             if bad:
                 _report(chk, bad, ch, stack + ("+ignore_exc" if ignore_exc else ""), dn, delivery, seq, run, net, trunc)
 
